@@ -431,7 +431,9 @@ func (m *Mutate) valuesToCellblocks() ([]byte, int32, uint32) {
 	var cbsLen int
 	var count int
 	for family, v := range m.values {
-		if v == nil {
+		if v == nil && m.mutationType == pb.MutationProto_DELETE {
+			// only a delete turns a nil qualifier map into a
+			// whole-family cell; keep in sync with the loop below
 			v = emptyQualifier
 		}
 		count += len(v)
